@@ -92,10 +92,14 @@ def sparse_case(case):
     cb.after = after
     real_uw = model._update_weights
 
+    used_alpha = []            # (phase, alpha in force when the shrinkage was applied); phase = "initial" or the index of the path step
+
     def uw(weights, gradients):
         real_uw(weights, gradients)
         snap = state["snap"]
         state["steps"] += 1
+        state["since_call"] = state.get("since_call", 0) + 1
+        used_alpha.append((state.get("phase", "initial"), float(model.alpha)))
         thr = model.alpha * model.optimiser_.learning_rate
         names = ["W1_", "W2_", "W_skip_", "b1_", "b2_"] if hasattr(model, "W_skip_") else ["W_", "b_"]
         now = dict(zip(names, model._get_weights()))
@@ -140,6 +144,10 @@ def sparse_case(case):
     counts = []
 
     def cvs_spy(clf, Xa, ya, b, g):
+        # two validation calls with no training in between: the second one opens the next step of the path
+        if counts and state.get("since_call", 0) == 0:
+            state["phase"] = 0 if state.get("phase", "initial") == "initial" else state["phase"] + 1
+        state["since_call"] = 0
         counts.append(_check_point(clf, X, declared, f"path_call_{len(counts)}", where, v))
         return real_cvs(clf, Xa, ya, b, g)
     try:
@@ -149,9 +157,21 @@ def sparse_case(case):
             else:
                 bs_mod.compute_val_score = cvs_spy
                 try:
-                    model.path(X, alpha_multiplier=3.0, min_features=1, max_patience=2)
+                    import warnings as _w
+                    with _w.catch_warnings():
+                        _w.simplefilter("ignore")
+                        ret = model.path(X, alpha_multiplier=3.0, min_features=1, max_patience=2)
                 finally:
                     bs_mod.compute_val_score = real_cvs
+                # the threshold of every shrinkage is (announced alpha of its step) x learning rate: 0 during the initial unpenalised fit, then the
+                # alphas of the returned history (which start at the documented default when the model's alpha is 0)
+                announced = list(ret[3])
+                for phase, a_live in used_alpha:
+                    exp_a = 0.0 if phase == "initial" else (announced[phase] if phase < len(announced) else None)
+                    if exp_a is not None and a_live != exp_a:
+                        v.append(violation("shrinkage_is_not_prox_of_alpha_times_lr", {"phase": phase, "alpha_in_force": a_live, "announced_alpha_of_the_step": exp_a,
+                                                                                       "announced_alphas": announced[:4]}, **where))
+                        break
     except ValueError as e:
         if dynamic and "0 feature(s)" in str(e):
             return {"v": [], "stats": {"evals": 1, "skipped_dynamic_empty_selection": 1}}     # KF-C07-1 (reported by C07)
